@@ -342,6 +342,18 @@ theorem truth_date (Y : Int) (o : Nat) (h : VD Y o) :
   obtain ⟨_, _, _, _, _, hwd, _⟩ := vd_fields Y o h
   exact ⟨_, _, _, ⟨w, hw, rfl, rfl⟩, rfl, hwd, w3, w4, w1, w2⟩
 
+/-- the leap clause of `Spec.expressible` (`exprLeapFor`) is the plain one for every format with a full
+time (a timestamp-only format has no minute item) -/
+theorem exprLeap_of_for (is : List Item) (v : ParseFrom.Value) (hft : fullTime (carries is) = true)
+    (h : exprLeapFor is v) : exprLeap v := by
+  rcases h with h | h
+  · exfalso
+    generalize carries is = c at h hft
+    cases c
+    simp only [stampOnly, beq_iff_eq, Carries.mk.injEq] at h
+    simp [fullTime, h] at hft
+  · exact h
+
 theorem cutFrac_zero (k : Nat) : cutFrac 0 k = 0 := by simp [cutFrac]
 
 theorem tvalid_zero : TValid ⟨0, 0⟩ := by unfold TValid; decide
@@ -442,6 +454,7 @@ theorem family_time (is : List Item) (t : Time) (htv : TValid t) (text : List Na
   have hiw : IsoWeek.week 2017306 = 1 := by decide
   obtain ⟨_, ⟨hsep, _⟩, hg1, hg2, hfull⟩ := hU
   obtain ⟨_, hEl, _, _, hEf⟩ := hE
+  have hEl := exprLeap_of_for is _ hfull hEl
   simp only [exprLeap, shown, onSome] at hEl
   simp only [exprFrac, shown, onSome] at hEf
   obtain ⟨hF, hnone, nv1, nv2⟩ := frac_conditions is t htv hfull hEf
@@ -542,6 +555,7 @@ theorem family_naive (is : List Item) (Y : Int) (o : Nat) (hvd : VD Y o) (t : Ti
   obtain ⟨fy, _⟩ := date_facts Y o hvd
   obtain ⟨_, ⟨hsep, _⟩, hg1, hg2, _⟩ := hU
   obtain ⟨hEy, hEl, _, hEs, hEf⟩ := hE
+  have hEl := exprLeap_of_for is _ hft hEl
   simp only [exprLeap, shown, onSome] at hEl
   simp only [exprFrac, shown, onSome] at hEf
   simp only [exprYears, shown, onSome, fy] at hEy
@@ -603,6 +617,7 @@ theorem family_zoned (is : List Item) (z : Zoned) (Y : Int) (o : Nat) (hvd : VD 
   obtain ⟨fy, _⟩ := date_facts Y o hvd
   obtain ⟨_, ⟨hsep, _⟩, hg1, hg2, _⟩ := hU
   obtain ⟨hEy, hEl, hEo, hEs, hEf⟩ := hE
+  have hEl := exprLeap_of_for is _ hft hEl
   simp only [exprLeap, shown, hl, onSome] at hEl
   simp only [exprFrac, shown, hl, onSome] at hEf
   simp only [exprYears, shown, hl, onSome, fy] at hEy
